@@ -2,7 +2,7 @@
    model of get_loc / __contains__ (LocateIndex.v) the hypothesis `old_span_ok` of the reindex theorems is proved. *)
 From Coq Require Import ZArith List Bool String Lia.
 Import ListNotations.
-Require Import PyBase Generated Locate LocateFacts LocateIndex LocateIndexFacts Reindex ReindexFacts ReindexPd.
+Require Import PyBase Generated Locate LocateFacts LocateIndex LocateIndexFacts Reindex ReindexFacts.
 Open Scope Z_scope.
 Open Scope list_scope.
 
@@ -13,7 +13,6 @@ Proof.
   intros Hs. apply old_span_ok_intro.
   - simpl. intros x. pose proof (reg_get_loc_spec k a s n Hs x) as H.
     destruct (pos x (reg_labels k a s n)); [destruct H as [fl H]; exists fl|]; rewrite H; reflexivity.
-  - intros p _. exact I.
   - intros ls E p _. inversion E; subst. rewrite (reg_contains_spec k a s n p Hs).
     destruct (pos p (reg_labels k a s n)); reflexivity.
 Qed.
@@ -60,61 +59,11 @@ Example rq_reindex :
   = Some [[CF (FNum (-4)); CF FNan; CF FNan]].
 Proof. vm_compute. reflexivity. Qed.
 
-(* ================= the pandas mixin relative to a MODEL of pandas for float64 series (ReindexPd.v) =================
-   With default arguments the mixin leaves every float64 variable exactly as the core reindex made it (old values at
-   overlapping periods, NaN at new ones): finding #11 concerns the other dtypes only.  (The model of Series.reindex is validated
-   by the correspondence check on duplicate-free old indexes, which is what pandas accepts.) *)
-Lemma all_cf_nth d q : forallb is_cf d = true -> is_cf (nth q d (CF FNan)) = true.
-Proof.
-  intros H. destruct (Nat.lt_ge_cases q (List.length d)) as [L|L].
-  - rewrite forallb_forall in H. apply H. apply nth_In. exact L.
-  - rewrite nth_overflow by exact L. reflexivity.
-Qed.
-Lemma reindexed_data_all_cf ols d labels : forallb is_cf d = true -> forallb is_cf (reindexed_data ols d (CF FNan) labels) = true.
-Proof.
-  intros H. unfold reindexed_data. rewrite forallb_forall. intros c Hc. apply in_map_iff in Hc as [p [Hp _]]. subst c.
-  destruct (pos p ols); [apply all_cf_nth; exact H | reflexivity].
-Qed.
-
-Theorem pandas_float_unaffected (pd_get_loc : list label -> label -> outcome loc) (pd_contains : list label -> label -> bool)
-        (cast : nat -> dtype -> pyval -> outcome cell) (st r : cst) (names : list string) (new_span : span) (new_id fresh : Z)
-        (mf : string -> option string) :
-  wf st ->
-  old_span_ok pd_get_loc pd_contains (c_span st) (span_labels new_span) ->
-  (forall n, cast n DFloat PNone = Ret (CF FNan)) ->
-  (forall name, In name names ->
-     mf name = None /\ name <> "status"%string /\ name <> "iterations"%string
-     /\ exists sr, lookup name (c_vars st) = Some sr /\ s_dtype sr = DFloat /\ forallb is_cf (s_data sr) = true) ->
-  model_reindex_M pd_get_loc pd_contains cast st new_span new_id PNone None [] fresh = Ret r ->
-  pandas_loop float_series_reindex float_assign_cast st new_span mf [] PNone names r = Ret r.
-Proof.
-  intros Hwf Hok Hcast Hnames Hr.
-  destruct (model_reindex_values pd_get_loc pd_contains cast st r new_span new_id PNone None [] fresh Hwf Hok Hr) as [_ [_ [_ [_ HF]]]].
-  apply pandas_loop_noop. intros name Hin.
-  destruct (Hnames name Hin) as [Hmf [Hs [Hi [so [Hso [Hdt Hcf]]]]]].
-  destruct (Forall2_lookup (fun a b => s_dtype (snd b) = s_dtype (snd a)
-              /\ exists c, fill_cell cast (List.length (span_labels new_span)) (s_dtype (snd a)) (model_fill [] PNone (fst a)) = Ret c
-                        /\ map erase (s_data (snd b)) = map erase (reindexed_data (span_labels (c_span st)) (s_data (snd a)) c (span_labels new_span))
-                        /\ (s_dtype (snd a) <> DObj -> s_data (snd b) = reindexed_data (span_labels (c_span st)) (s_data (snd a)) c (span_labels new_span)))
-            (c_vars st) (c_vars r) name so) as [sn [Hsn [Hd [c [Hc [_ Hdata0]]]]]].
-  - clear - HF. induction HF as [|a b l l' [Ha [Hb Hc]] HF IH]; constructor; [|exact IH]. split; [exact Ha|]. split; [exact Hb | exact Hc].
-  - exact Hso.
-  - simpl in *. exists so, sn. split; [exact Hso|]. split; [exact Hsn|].
-    assert (Hdata : s_data sn = reindexed_data (span_labels (c_span st)) (s_data so) c (span_labels new_span)) by (apply Hdata0; rewrite Hdt; discriminate).
-    assert (Ec : c = CF FNan).
-    { unfold model_fill in Hc. apply String.eqb_neq in Hs. apply String.eqb_neq in Hi. rewrite Hs, Hi in Hc.
-      rewrite Hdt in Hc. unfold fill_for in Hc. simpl in Hc. rewrite Hcast in Hc. inversion Hc. reflexivity. }
-    subst c. exists (reindexed_data (span_labels (c_span st)) (s_data so) (CF FNan) (span_labels new_span)). split.
-    + unfold float_series_reindex, fill_for. simpl. rewrite Hdt, Hmf. reflexivity.
-    + unfold float_assign_cast. rewrite Hd, Hdt. rewrite (reindexed_data_all_cf _ _ _ Hcf). rewrite Hdata. reflexivity.
-Qed.
-
 (* any other pandas index under the plain model (position of the label): old_span_ok for every list of labels *)
 Theorem plain_index_old_span_ok (ls labels : list label) :
   old_span_ok (fun l => plain_get_loc l) (fun l => plain_contains l) (SPandas ls) labels.
 Proof.
   apply old_span_ok_intro.
   - exact (plain_span_ok ls).
-  - intros p _. exact I.
   - intros ls' E p _. inversion E; subst. rewrite plain_contains_spec. destruct (pos p ls'); reflexivity.
 Qed.
